@@ -107,6 +107,8 @@ impl SchedulerCore {
                     if let Some(cond_var) = cond_var.upgrade() {
                         // Record the wake-up, then pass through the waiter's mutex so it is either not yet checking the flag or already waiting
                         rescheduled.store(true, atomic::Ordering::SeqCst);
+                        #[cfg(desync_verif)]
+                        crate::verif::log("kick", "ready", ready.upgrade().map(|r| r.id()).unwrap_or(usize::MAX), String::new());
                         if let Some(ready) = ready.upgrade() { mem::drop(ready.lock()); }
                         cond_var.notify_one();
                     }
